@@ -72,7 +72,12 @@ fn gen_members(rng: &mut Rng, first_id: u64, max: usize) -> Vec<Member> {
     let n = 1 + rng.usize(max);
     (0..n)
         .map(|i| {
-            let v = value_text(rng, 2);
+            let v = match rng.below(500) {
+                // long members: offsets beyond one and two bytes
+                0..=14 => { let l = 300 + rng.usize(1500); let mut t = vec![b'(']; t.extend((0..l).map(|_| b"abc xyz012"[rng.usize(10)])); t.push(b')'); ValText { kind: "string", text: t } }
+                15 => { let l = 66_000 + rng.usize(3000); let mut t = vec![b'<']; t.extend((0..l * 2).map(|_| b"0123456789ABCDEF"[rng.usize(16)])); t.push(b'>'); ValText { kind: "string", text: t } }
+                _ => value_text(rng, 2),
+            };
             Member { id: first_id + i as u64, text: v.text, sep: gen_sep(rng), kind: v.kind }
         })
         .collect()
@@ -96,7 +101,8 @@ fn real_member(n: i64, first: i64, data: &[u8], idx: usize) -> String {
 fn member_streams(driver: &Driver, seed: u64, thorough: bool, rep: &mut Report) {
     let mut sp = Stream_::new("c11.pack", true);
     let mut st = Stream_::new("c11.member", true);
-    let n = if thorough { 20_000 } else { 600 };
+    let mut os = Oracle::new("c11.slices");
+    let n = if thorough { 20_000 } else { 3000 };
     let mut pack_cases = vec![];
     let mut cases = vec![];
     for case in 0..n {
@@ -116,7 +122,14 @@ fn member_streams(driver: &Driver, seed: u64, thorough: bool, rep: &mut Report) 
             // the property-level expectation, independent of the model: text ++ sep
             let mut want = m.text.clone();
             want.extend_from_slice(&m.sep);
-            debug_assert!(imp.ends_with(&hex(&want)) || !imp.starts_with("ok"));
+            os.case(&format!("{}#{}", hex(&data[..data.len().min(64)]), i), true, || json!({"members": ms.len(), "index": i, "kind": m.kind}));
+            os.count(&format!("kind={}", m.kind));
+            os.count(&format!("position={}", pos));
+            let got = imp.rsplit(' ').next().unwrap_or("");
+            if !imp.starts_with("ok ") || got != hex(&want) {
+                os.fail(&format!("slice-differs:{}", pos), &format!("member {} of {} ({}, {} member, separator {:?}): the reader's slice is {} instead of text ++ separator {}", i, ms.len(), m.kind, pos, String::from_utf8_lossy(&m.sep), trunc(&imp), trunc(&hex(&want))),
+                    json!({"stream": "c11.member", "seed": seed, "case": case, "index": i, "n": cnt, "first": first, "data_hex": hex(&data)}));
+            }
             cases.push((format!("c11.member {} {} {} {}", cnt, first, hex(&data), i), imp, true));
         }
         for extra in 0..2 {
@@ -135,9 +148,10 @@ fn member_streams(driver: &Driver, seed: u64, thorough: bool, rep: &mut Report) 
     }
     rep.streams.push(sp);
     rep.streams.push(st);
+    rep.oracles.push(os);
 
     let mut so = Stream_::new("c11.member.outside", false);
-    let n = if thorough { 40_000 } else { 1500 };
+    let n = if thorough { 40_000 } else { 5000 };
     let mut cases = vec![];
     for case in 0..n {
         let mut rng = Rng::derive(seed, "c11.member.outside", case);
@@ -238,7 +252,14 @@ fn gen_twin_file(rng: &mut Rng, forced: Option<(&'static [u8], &'static str)>) -
     // values
     let mut vals = vec![];
     for _ in 0..nvals {
-        let v = match forced { Some((t, k)) => ValText { kind: k, text: t.to_vec() }, None => value_text(rng, 2) };
+        let v = match forced {
+            Some((t, k)) => ValText { kind: k, text: t.to_vec() },
+            None => match rng.below(500) {
+                0..=14 => { let l = 300 + rng.usize(1500); let mut t = vec![b'(']; t.extend((0..l).map(|_| b"abc xyz012"[rng.usize(10)])); t.push(b')'); ValText { kind: "string", text: t } }
+                15 => { let l = 66_000 + rng.usize(3000); let mut t = vec![b'<']; t.extend((0..l * 2).map(|_| b"0123456789ABCDEF"[rng.usize(16)])); t.push(b'>'); ValText { kind: "string", text: t } }
+                _ => value_text(rng, 2),
+            },
+        };
         let d = next_id;
         let c = next_id + 1;
         next_id += 2;
@@ -411,7 +432,7 @@ fn twin_oracle(seed: u64, thorough: bool, rep: &mut Report, only: Option<&Value>
     let (from, to) = match only {
         Some(r) if r["stream"] == "c11.twins" => { let c = r["case"].as_u64().unwrap_or(0); (c, c + 1) }
         Some(_) => (0, 0),
-        None => (0, if thorough { 30_000 } else { 500 }),
+        None => (0, if thorough { 60_000 } else { 5000 }),
     };
     for case in from..to {
         let mut rng = Rng::derive(seed, "c11.twins", case);
